@@ -11,6 +11,9 @@ fn random_float(min: Value, max: Value) -> Resolved {
     if max <= min {
         return Err("max must be greater than min".into());
     }
+    if !(max - min).is_finite() {
+        return Err("the range between min and max must be finite".into());
+    }
 
     let f: f64 = rand::rng().random_range(min..max);
 
@@ -18,8 +21,8 @@ fn random_float(min: Value, max: Value) -> Resolved {
 }
 
 fn get_range(min: Value, max: Value) -> std::result::Result<Range<f64>, &'static str> {
-    let min = min.try_float().expect("min must be a float");
-    let max = max.try_float().expect("max must be a float");
+    let min = min.try_float().map_err(|_| "min must be a float")?;
+    let max = max.try_float().map_err(|_| "max must be a float")?;
 
     if max <= min {
         return Err(INVALID_RANGE_ERR);
